@@ -82,6 +82,14 @@ def step (s : St) : List String → St × String
       match parseKind k, parseParts parts, s.trie with
       | some k, some p, some t => (s, showCfg (t.propagate p k))
       | _, _, _ => (s, "bad-op")
+  | ["propd", k, parts] =>        -- with an explicit default (a recognisable sentinel)
+      match parseKind k, parseParts parts, s.trie with
+      | some k, some p, some t => (s, showCfg (t.propagate p k (some ⟨[⟨"", none, 999999⟩], []⟩)))
+      | _, _, _ => (s, "bad-op")
+  | ["getd", k, parts] =>
+      match parseKind k, parseParts parts, s.trie with
+      | some k, some p, some t => (s, showCfg (t.get p k (some ⟨[⟨"", none, 999999⟩], []⟩)))
+      | _, _, _ => (s, "bad-op")
   | ["get", k, parts] =>
       match parseKind k, parseParts parts, s.trie with
       | some k, some p, some t => (s, showCfg (t.get p k))
